@@ -263,8 +263,11 @@ def _lemma_contract(modname, transp):
         extra = tuple(sorted((k, repr(v)) for k, v in kwargs.items())) + tuple(repr(a) for a in args[1:])
         memo = ctx.__dict__.setdefault('memo', {})
         tag = 'ck:' + modname
-        for (t, ex, n_), (chars0, r0) in list(memo.items()):
-            if t != tag or ex != extra or n_ != len(number):
+        for k_, v_ in list(memo.items()):
+            if not (isinstance(k_, tuple) and len(k_) == 3 and k_[0] == tag):
+                continue
+            (t, ex, n_), (chars0, r0) = k_, v_
+            if ex != extra or n_ != len(number):
                 continue
             diff = [i for i, (a, b) in enumerate(zip(chars0, number.chars)) if not _same_char(a, b)]
             if len(diff) == 1:
